@@ -590,6 +590,46 @@ def stratum_texts(chk, env, n):
 VMCAP = [60]
 
 
+def stratum_same_adapter(chk, env, n):
+    """save -> load REPEATEDLY on one enforcer + adapter, with different policies of exactly the same serialised
+    length written in quick succession (same size, same second): every load must return what the save just before
+    it stored, not an earlier policy.  SPEC only."""
+    rng = chk.rng
+    vals = ["aa", "bb", "cc", "dd", "éé", "ab"]
+    runs = 0
+    for ak in ADAPTERS:
+        for _ in range(n):
+            e, a = make_enforcer(env, ak, "rbac4")
+            hist = []
+            for step in range(rng.randint(2, 4)):
+                # same number of rules and same field widths every time -> same byte length
+                pol = {"p": [[rng.choice(vals[:4]), rng.choice(vals[:4]), rng.choice(vals[:4])] for _ in range(3)],
+                       "g": [[rng.choice(vals[:4]), rng.choice(vals[:4])] for _ in range(2)]}
+                e.clear_policy()
+                for pt, rules in pol.items():
+                    e.model.model[pt[0]][pt].policy = [list(r) for r in rules]
+                before = snapshot(e.model)
+                try:
+                    if ak == "async":
+                        env.loop.run_until_complete(e.save_policy())
+                        env.loop.run_until_complete(e.load_policy())
+                    else:
+                        e.save_policy()
+                        e.load_policy()
+                    obs = obs_ok(snapshot(e.model))
+                except Exception as ex:  # noqa
+                    obs = obs_err(ex)
+                hist.append(pol)
+                runs += 1
+                chk.count(("same-adapter", ak, json.dumps(hist)))
+                if obs != obs_ok(before):
+                    chk.spec_fail(dict(kind="same-adapter-history", adapter=ak, model="rbac4", stratum="same-adapter",
+                                       policies_saved_then_loaded=hist), dict(after_last_load=str(obs)[:400]), "the policy saved last",
+                                  "save_policy(); load_policy() repeated on one adapter: a load did not give back the policy just saved")
+                    break
+    chk.extra.setdefault("strata", {})["same_adapter_save_load_steps"] = runs
+
+
 def large_policy(shift, size):
     """> size bytes of mostly multi-byte text; `shift` ASCII bytes in the first rule move every later character by one
     byte, so that over shift = 0,1,2 a 3-byte character straddles EVERY byte offset (in particular any buffer
@@ -641,6 +681,7 @@ def run(chk, n_pol, n_text, maxlen):
             vm_reqs += part[0]
             vm_reps += part[1]
         stratum_fields(chk, env, maxlen)
+        stratum_same_adapter(chk, env, 12 if chk.tier == "quick" else 120)
         stratum_large(chk, env, (0, 1, 2), (70_000,) if chk.tier == "quick" else (9_000, 70_000, 140_000, 300_000))
         for part in (stratum_roundtrip(chk, env, n_pol), stratum_texts(chk, env, n_text)):
             vm_reqs += part[0]
@@ -673,6 +714,26 @@ def replay(chk):
             verdict, base, obs, m_obs, in_grammar = judge_load(chk, env, c["adapter"], c["text"], "replay", record=False)
             print(f"replay: impl={obs} model={m_obs} in_grammar={in_grammar} verdict={verdict}")
             bad = verdict == "spec"
+        elif c.get("kind") == "same-adapter-history":
+            e, a = make_enforcer(env, c["adapter"], c["model"])
+            bad = False
+            for pol in c["policies_saved_then_loaded"]:
+                e.clear_policy()
+                for pt, rules in pol.items():
+                    e.model.model[pt[0]][pt].policy = [list(r) for r in rules]
+                before = snapshot(e.model)
+                try:
+                    if c["adapter"] == "async":
+                        env.loop.run_until_complete(e.save_policy())
+                        env.loop.run_until_complete(e.load_policy())
+                    else:
+                        e.save_policy()
+                        e.load_policy()
+                    obs = obs_ok(snapshot(e.model))
+                except Exception as ex:  # noqa
+                    obs = obs_err(ex)
+                bad = bad or obs != obs_ok(before)
+            print(f"replay: {len(c['policies_saved_then_loaded'])} save/load steps on one {c['adapter']} adapter: all round trips ok = {not bad}")
         elif c.get("kind") in ("roundtrip-large", "load-large"):
             pol = large_policy(c["shift"], c["bytes"])
             before, saved, obs = run_roundtrip(env, c["adapter"], c["model"], pol)
